@@ -476,7 +476,7 @@ def make_specs(ctx, rng, full: bool):
     for _ in range(ctx.n(6, 120)):
         add(family="roland", patches=[rng.choice(rol_kinds) for _ in range(rng.randint(1, 3))])
     for kind, ns in (("clean", [0]), ("long-blank-title", [300, 3000, 6000]), ("long-hyphen-title", [300, 3000, 6000]), ("long-dot-title", [300, 3000, 6000]),
-                     ("long-quote-line", [300, 6000]), ("long-blank-line", [300, 6000]), ("many-tracks", [99, 600, 12000] + ([3000, 20000] if full else [])), ("many-blank", [5000]),
+                     ("long-quote-line", [300, 6000]), ("long-blank-line", [300, 6000]), ("many-tracks", [99, 600, 12000] + ([3000, 20000] if full else [])), ("many-blank", [5000, 600000]),
                      ("huge-index", [0]), ("huge-numbers", [5, 50, 400]), ("no-bin", [0]), ("short-bin", [0, 0])):
         for n in ns:
             add(family="cdda", kind=kind, n=n, crlf=rng.random() < 0.3)
